@@ -519,6 +519,46 @@ func c10RunHeaderOnly(limit int, pos string, declared uint32) explore.Result {
 	return res
 }
 
+func c10RunDiscarding(limit, body int, failing string) explore.Result {
+	var res explore.Result
+	res.Outcome = "oversized-session"
+	res.Key = fmt.Sprint("discarding", limit, body, failing)
+	frame := pgproto.Cat(pgproto.Sync(), pgproto.Query(c03Smuggled))
+	payload := bytes.Repeat(frame, body/len(frame)+1)[:body]
+	var fail []byte
+	switch failing {
+	case "Parse(#perr)":
+		fail = pgproto.Parse("", "#perr")
+	case "Bind(unknown statement)":
+		fail = pgproto.Bind("", "nope", nil, nil, nil)
+	default:
+		fail = pgproto.Execute("nope", 0)
+	}
+	stream := pgproto.Cat(pgproto.Startup("user", "u"), fail, pgproto.Msg('B', payload), pgproto.Sync(), pgproto.Query(progRows))
+	o := c04RunLimit(false, c04Feed{Stream: stream}, false, limit)
+	what := fmt.Sprintf("limit %d: %s fails, then a Bind message with a %d-byte body (a run of framed Sync + Query messages), Sync, probe query", limit, failing, body)
+	if o.engine != "" {
+		res.Engine = o.engine
+		return res
+	}
+	for _, e := range o.events {
+		if strings.Contains(e, c03Smuggled) {
+			res.Fail("oversized-not-skipped", fmt.Sprintf("%s: bytes of the oversized body were executed as messages: %v", what, o.events))
+			return res
+		}
+	}
+	k := harness.Kinds(o.out)
+	if i := strings.IndexByte(k, 'Z'); i >= 0 {
+		k = k[i+1:]
+	}
+	// (whether the 54000 error is followed by a ReadyForQuery of its own is not asserted, see the assumptions)
+	if z := strings.Count(k, "Z"); !strings.HasSuffix(k, "ZTDCZ") || z < 2 || z > 3 {
+		res.Fail("oversized-reply", fmt.Sprintf("%s: the session was answered %q (expected the error(s), the ReadyForQuery of the one real Sync, then the probe served normally)", what, k))
+	}
+	res.Trans = []string{"discarding|oversized|discarding"}
+	return res
+}
+
 // c10RunSeveral: oversized Query messages whose bodies are runs of framed "smuggled" queries, then a probe.
 func c10RunSeveral(limit int, bodies []int) explore.Result {
 	var res explore.Result
@@ -602,6 +642,18 @@ func c10Enumerate(tier string, emit explore.Emit) {
 						return map[string]any{"limit": l, "position": pos, "declared_length": d, "sent": "header only"}
 					},
 					Run: func() explore.Result { return c10RunHeaderOnly(l, pos, d) }})
+			}
+		}
+	}
+	// an oversized message arriving while the session discards everything up to the next Sync (after a failed
+	// extended-query message): it is skipped in full all the same, its body is never interpreted
+	for _, l := range []int{32, 1024} {
+		for _, d := range []int{l + 1, l + 22, 2*l + 1} {
+			for _, failing := range []string{"Parse(#perr)", "Bind(unknown statement)", "Execute(unknown portal)"} {
+				l, d, failing := l, d, failing
+				emit(explore.Case{Family: "oversized-while-discarding", Size: 3,
+					Desc: func() any { return map[string]any{"limit": l, "oversized_body": d, "failed_message_before": failing} },
+					Run:  func() explore.Result { return c10RunDiscarding(l, d, failing) }})
 			}
 		}
 	}
